@@ -159,6 +159,8 @@ const ARGS: &[&str] = &[
     "1", "-1", "0", "70000", "1.5", "2.5#", "\"ab\"", "\"\"", "S$", "N%", "D#", "A(1)", "R.F", "A",
     // a string with characters above 127
     "H$",
+    // strings that are not a valid NAME=value pair for the host environment
+    "\"=B\"",
 ];
 
 const SUBS: &[&str] = &[
@@ -310,7 +312,15 @@ pub fn drive(tier: &str) -> i32 {
         if let Some(first) = unique.first() {
             samples.push(json!({"group": name, "first": truncate_text(first, 200), "median": truncate_text(&unique[unique.len() / 2], 200), "last": truncate_text(unique.last().unwrap(), 200)}));
         }
-        reports.push(run_text_group(&mut run, &pool, &name, &unique, 25, &json!({})));
+        let ran_before: u64 = run.hist.iter().filter(|(k, _)| k.starts_with("run-")).map(|(_, v)| *v).sum();
+        let mut report = run_text_group(&mut run, &pool, &name, &unique, 25, &json!({}));
+        let ran_after: u64 = run.hist.iter().filter(|(k, _)| k.starts_with("run-")).map(|(_, v)| *v).sum();
+        report["programs_executed"] = json!(ran_after - ran_before);
+        // every group is built so that a good part of it is accepted: a group in which nothing runs is a broken generator
+        if ran_after == ran_before && report["completed"].as_bool() == Some(true) {
+            run.machinery.push(format!("non-vacuity: no program of the group {:?} was accepted and run", name));
+        }
+        reports.push(report);
     }
     let ran: u64 = run
         .hist
